@@ -1,4 +1,5 @@
 """C04 — every represented instance of a rule's left side fires (enumeration completeness of the matcher)."""
+import re
 from salib import mir
 from salib.mir import role_str, role_walk, strip_role, role_mentions_field, role_mentions_call, role_mentions_param
 from salib.runner import rule, where_of
@@ -301,7 +302,13 @@ def m3c(ctx):
     # position is a function of the same counter alone (`v[k % v.len()]`), only "diagonal" tuples come out although their
     # number is right.  (A necessary condition read off the code's shape; that the enumeration is complete is not decided.)
     for f_ in cf:
-        bodies_ = f_.all_bodies()
+        bodies_ = list(f_.all_bodies())
+        # the enumeration may live in a named iterator type that cartesian() merely constructs: look at its `next`
+        rt = re.sub(r"<.*$", "", f_.local_ty(0))
+        if rt in crate.adts:
+            for nb_ in crate.by_name.get("next", []):
+                if (nb_.impl_self or "").startswith(rt) and (nb_.impl_trait or "").endswith("Iterator"):
+                    bodies_ += list(nb_.all_bodies())
         has_reset = False
         has_step = False
         has_div = False
